@@ -155,7 +155,7 @@ func newContracts() *Contracts {
 	return &Contracts{Funcs: map[string]*Contract{}, Specs: map[string]*SpecFunc{}, Ghosts: map[string]*GhostDecl{}}
 }
 
-var labelRe = regexp.MustCompile(`^([A-Za-z_][A-Za-z0-9_.\[\] ]*?):\s+(.*)$`)
+var labelRe = regexp.MustCompile(`^([A-Za-z_][A-Za-z0-9_.@\[\] ]*?):\s+(.*)$`)
 
 func parseClause(src string, file string, line int, allowLabel bool) (Clause, error) {
 	c := Clause{Src: src, Line: line}
